@@ -294,6 +294,9 @@ func forged(cls string, claimed *node, seq int) *peer.SignedMsg {
 		msg, _, _ := pubmessage.NewPubMessage(channel, mk, hash.HashType_HashType_BLAKE3, data)
 		msg.FromPeerId = claimed.id.String()
 		return msg
+	case "genuine": // a perfectly authentic message of the claimed sender for our channel (replayed to a node that did not ask for it)
+		msg, _, _ := pubmessage.NewPubMessage(channel, claimed.key, hash.HashType_HashType_BLAKE3, data)
+		return msg
 	case "attached-key": // signed by mallory, claims the honest sender, carries mallory's key in the optional signature.pub_key field
 		msg, _, _ := pubmessage.NewPubMessage(channel, mk, hash.HashType_HashType_BLAKE3, data)
 		msg.FromPeerId = claimed.id.String()
@@ -341,6 +344,7 @@ type mstep struct {
 	ID   int      `json:"id"`
 	Subs []string `json:"subs"`
 	W    bool     `json:"w"` // wait for the mesh to settle after the step (FloodSubDyn.tla histories)
+	Cls  string   `json:"cls"` // inject: class of the injected frame (default: cycle through the forged classes)
 }
 type behaviour struct {
 	Topo  [][]string `json:"topo"`
@@ -560,6 +564,9 @@ func runMesh(bi int, b behaviour, le *logrus.Entry, rows *[]map[string]any) {
 			from := s.Subs[0]
 			end := m.nodes[s.N].ends[from]
 			cls := forgedClasses[int(injectCount.Add(1))%len(forgedClasses)] // every class is used once there are enough injections
+			if s.Cls != "" {
+				cls = s.Cls
+			}
 			pkt := &floodsub.Packet{Publish: []*peer.SignedMsg{forged(cls, m.nodes[from], bi)}}
 			body, _ := pkt.MarshalVT()
 			frame := make([]byte, 4+len(body))
